@@ -238,7 +238,7 @@ Theorem h_liquidate_inv w r e ab lb n w' :
     liq_facts w r e ab lb n w' ha hl ee er ba1 bl1 ps0 ps1 h0 A0 L0 h1 ap lp v1 v2 q_liq q_fin i1 i2 i3 i4 la1 la3
               b1 b1' b2 b2' b3 b3' b4 b4' bl2 ba2 ba3 bl3 ee3 er3 ha' hl' f.
 Proof.
-  intros [Hbanks Haccts] Hre H. unfold h_liquidate in H.
+  intros [Hbanks Haccts] Hre H. unfold h_liquidate, h_liquidate_gen in H.
   apply bind_ok in H as (ha & Hha & H). apply bind_ok in H as (hl & Hhl & H).
   apply bind_ok in H as (u3 & _ & H).
   apply bind_ok in H as (u1 & Hn & H). apply check_ok in Hn.
